@@ -7,6 +7,7 @@ from vcommon import Infra
 
 import fam_writepath
 import fam_search
+import fam_minmax
 
 
 class WritePathFamily:
@@ -23,7 +24,14 @@ class SearchFamily:
     evidence = staticmethod(fam_search.evidence)
 
 
-FAMILIES = [WritePathFamily, SearchFamily]
+class MinMaxFamily:
+    NAME = "minmax"
+    PROPS = fam_minmax.PROPS
+    compute = staticmethod(fam_minmax.compute)
+    evidence = staticmethod(fam_minmax.evidence)
+
+
+FAMILIES = [WritePathFamily, SearchFamily, MinMaxFamily]
 
 
 def family_of(pid):
